@@ -104,7 +104,7 @@ Found by the dimension sweeps
   `pool_rdm(method='cosine')` squared the dissimilarities in their own dtype: uint8 wrapped modulo 256 (silently wrong cosine
   noise ceilings), int16 overflowed to a negative mean square (NaN pooled RDM -> `ValueError: rdm1 and rdm2 have different nan
   positions`), wherever typed data were pooled without having passed through `subsample_pattern` (which makes them float).
-Pending triage (registrations behind `if False:  # pending triage: <class>`)
+Pending triage (registrations behind `if False:  # pending triage: <class>`)   [TRIAGED since: every class repaired in /repo, recorded as open finding, or dropped -- DESIGN.md 10.10]
 * `single-rdm,pattern-bootstrap` (`eval_dual_bootstrap_random(boot_type='pattern')` on one RDM; reported under evaluations, no
   Result): the routine passes n_rdm=data.n_rdm to `Result` whatever is resampled; `_correct_1d` divides by n_rdm - 1 = 0.
 """
